@@ -278,7 +278,9 @@ def _run(scn, w, net, res):
     if mode != "unicast":
         return _finish(scn, res, c, sig)
     # ---- ground truth at the origin
-    mine = [cy for cy in origin.radio.cycles[c0:] if len(cy["data"]) >= 8 and cy["data"][6] == typ]
+    # (the sender's own frame: type, destination and payload - a relayed cross-traffic frame may carry the same type)
+    mine = [cy for cy in origin.radio.cycles[c0:] if len(cy["data"]) >= 8 and cy["data"][6] == typ and (cy["data"][2] | (cy["data"][3] << 8)) == dst
+            and bytes(cy["data"][8:]) == bytes(data)]
     t_accept = next((cy["end"] for cy in mine if cy["result"] == "tx_ds"), None)
     stored = [t["t1"] for t in nacks if (t["data"][2] | (t["data"][3] << 8)) == src and ("n%s" % src, "stored") in [tuple(x) for x in t["rx"]]]
     poll = origin.mcu.poll_ns
